@@ -332,6 +332,15 @@ func dgramBytes(id uint16, d dgram) []byte {
 	return b
 }
 
+// missCache is a resolver.Cacher that evicts at once: Add is accepted, Get never finds anything.
+type missCache struct {
+	mu   sync.Mutex
+	adds int
+}
+
+func (c *missCache) Add(key, value interface{}) { c.mu.Lock(); c.adds++; c.mu.Unlock() }
+func (c *missCache) Get(key interface{}) (interface{}, bool) { return nil, false }
+
 // ---- the system under test --------------------------------------------------------------------------
 
 type upSystem struct {
@@ -358,7 +367,11 @@ func startUpSystem() *upSystem {
 	ep := &endpoint.DOHEndpoint{Hostname: "example.com"}
 	ep.VerifUseTransport(ds.fwd.addr(), roots)
 	mk := func(e endpoint.Endpoint) *resolver.DNS {
-		return &resolver.DNS{Manager: &endpoint.Manager{
+		// the response cache is configured (run.go: cache-size > 0) but never has the entry asked for - a cache smaller
+		// than the working set: every upstream message, well-formed or not, goes through the store path, and no fault is
+		// hidden behind an earlier answer
+		ch := &missCache{}
+		return &resolver.DNS{DOH: resolver.DOH{Cache: ch}, DNS53: resolver.DNS53{Cache: ch}, Manager: &endpoint.Manager{
 			Providers:      []endpoint.Provider{endpoint.StaticProvider([]endpoint.Endpoint{e})},
 			InitEndpoint:   e,
 			// the manager's default error threshold (10): a long run of faults makes it hold an election, which - the
